@@ -32,7 +32,7 @@ man = {
    "guard": "gothenburgbitfactory_taskchampion_verif",
    "enable": "harness/.cargo/config.toml passes --cfg gothenburgbitfactory_taskchampion_verif to rustc for the harness build (which compiles /repo as a path dependency)",
    "baseline_off_cmd": "cd /repo && cargo nextest run --workspace --no-fail-fast --offline --test-threads 8 || cargo test --workspace --no-fail-fast --offline",
-   "source_commits": ["e7a49da", "2dbacfd", "59506c6"],
+   "source_commits": ["e7a49da", "2dbacfd", "59506c6", "a7aa84d"],
    "add_only": True,
  },
  "engines": [{"name": "tla-tlc-conformance", "path": "bin/check", "serves_properties": sorted(CHECKS),
